@@ -973,6 +973,12 @@ where
             algorithms, hash_from_bytes_with_last_index_internal_template,
         };
         use crate::internals::hash_dual::algorithms::update_rle_block;
+        // The normalizing parser below only bounds the *normalized* block
+        // hash lengths.  Because a dual fuzzy hash also stores the raw form,
+        // raw lengths must fit, too: accept only what the raw variant accepts
+        // (the strict parser already guarantees that by itself).
+        #[cfg(not(feature = "strict-parser"))]
+        <fuzzy_raw_type!(S1, S2)>::from_bytes(str)?;
         let mut fuzzy = Self::new();
         hash_from_bytes_with_last_index_internal_template! {
             str, index, true,
